@@ -31,7 +31,7 @@ var encInsts = []InstCfg{
 	{Kind: "map", Full: true, TR: 63},
 	{Kind: "map", Full: false, TR: 0, Mode: "all"},
 	{Kind: "map", Full: false, TR: 63, Mode: "all"},
-	{Kind: "map", Full: false, TR: 0, Mode: "none"},  // deletions first verified with remember, same encoding
+	{Kind: "map", Full: false, TR: 0, Mode: "none"}, // deletions first verified with remember, same encoding
 	{Kind: "map", Full: false, TR: 3, Mode: "none"},
 	{Kind: "map", Full: false, TR: 63, Mode: "fromroots"}, // NewMapPollardFromRoots + Verify(remember)
 }
